@@ -53,6 +53,7 @@ type Obligation struct {
 	Kind   string   `json:"kind"`
 	Name   string   `json:"name"`
 	Props  []string `json:"props,omitempty"`
+	Eff    []string `json:"eff_props,omitempty"`
 	Pos    string   `json:"pos,omitempty"`
 	Prefix int      `json:"-"`
 	Reach  string   `json:"-"`
